@@ -458,4 +458,133 @@ def setOutcome (kws : List String) : SetOutcome :=
 /-- what a positional call `set_…(x₀, x₁, …)` with `n` arguments binds: the first `n` parameter names. -/
 def Sig.positional (s : Sig) (n : Nat) : List String := (s.take n).map (·.1)
 
+/-! ### fourth extension round: the degree-level API (float library routines as a parameter record), the four
+parameter sets as one type, arrays of points and their shapes, the tolerance literal of the setter clean-up -/
+
+/-- the float library routines the class calls: `(x)**0.5` / `np.linalg.norm`, `np.cos`, `np.arccos`, `np.pi`. -/
+structure Trig (K : Type) where
+  sqrt : K → K
+  cos : K → K
+  acos : K → K
+  pi : K
+
+/-- the clamp of `tools.vect_angle` before `np.arccos` (`if cosine < -1: cosine = -1 elif cosine > 1: cosine = 1`). -/
+def clampCos [One K] [Neg K] [LT K] [DecidableLT K] (c : K) : K :=
+  if c < -1 then -1 else if 1 < c then 1 else c
+
+/-- the double nearest to the literal `atol=1e-9` of the setter clean-up, exactly (numerator, denominator). -/
+def atolNum : Nat := 4835703278458517
+def atolDen : Nat := 4835703278458516698824704
+
+/-- the cell a cell-defining setter stores: the clean-up of the `vects` setter applied. -/
+def cleanBox [Zero K] [Neg K] [Mul K] [LT K] [LE K] [DecidableLT K] [DecidableLE K] (thr : K) (b : Box K) : Box K :=
+  ⟨cleanVects thr b.vects, b.origin⟩
+
+section degrees
+variable [Zero K] [One K] [OfNat K 180] [Neg K] [Add K] [Sub K] [Mul K] [Div K] [LT K] [LE K]
+  [DecidableLT K] [DecidableLE K] [DecidableEq K]
+
+/-- the getters `a`, `b`, `c`: `(x² + y² + z²)**0.5`. -/
+def lenOf (T : Trig K) (v : V3 K) : K := T.sqrt (V3.normSq v)
+
+/-- the getters `alpha`, `beta`, `gamma` = `vect_angle(u, v)`: unit vectors by their own norm, inner product, clamp,
+    `180 * arccos / pi`. -/
+def angleDeg (T : Trig K) (u v : V3 K) : K :=
+  180 * T.acos (clampCos (angleCos u v (lenOf T u) (lenOf T v))) / T.pi
+
+/-- `np.cos(angle * np.pi / 180)` of `set_abc`. -/
+def cosDeg (T : Trig K) (ang : K) : K := T.cos (ang * T.pi / 180)
+
+/-- the whole straight-line part of `set_abc` (angles in degrees): what goes to `set_lengths`. -/
+def abcOfDeg (T : Trig K) (a b c alpha beta gamma : K) : Lengths K :=
+  let ca := cosDeg T alpha
+  let cb := cosDeg T beta
+  let cg := cosDeg T gamma
+  let ly := T.sqrt (abcLySq b cg)
+  let lz := T.sqrt (abcLzSq b c ca cb cg ly)
+  abcLengths a b c ca cb cg ly lz
+
+/-- `set_abc(a, b, c, alpha, beta, gamma, origin)`: angle guard (ValueError), arithmetic, `set_lengths` (assert), clean-up. -/
+def setAbcDeg? (T : Trig K) (thr : K) (a b c alpha beta gamma : K) (o : V3 K) : Option (Box K) :=
+  if anglesOk alpha beta gamma then (ofLengthsP? (abcOfDeg T a b c alpha beta gamma) o).map (cleanBox thr) else none
+
+/-- the four parameter sets of the property text. -/
+inductive Family where
+  | vectors | abc | lengths | hilos
+deriving Repr, BEq, DecidableEq
+
+/-- a cell definition through one of them (angles in degrees, as the API takes them). -/
+inductive Params (K : Type) where
+  | vectors (a b c o : V3 K)
+  | abc (a b c alpha beta gamma : K) (o : V3 K)
+  | lengths (p : Lengths K) (o : V3 K)
+  | hilos (p : HiLos K)
+
+def Params.family : Params K → Family
+  | .vectors .. => .vectors
+  | .abc .. => .abc
+  | .lengths .. => .lengths
+  | .hilos .. => .hilos
+
+/-- `Box(**definition)` / `set_*(…)`: the cell stored, `none` = refused (AssertionError / ValueError). -/
+def define? (T : Trig K) (thr : K) : Params K → Option (Box K)
+  | .vectors a b c o => some (setVects thr ⟨a, b, c⟩ o)
+  | .abc a b c al be ga o => setAbcDeg? T thr a b c al be ga o
+  | .lengths p o => setLengths? thr p o
+  | .hilos p => setHiLos? thr p
+
+/-- the cell before the clean-up of the `vects` setter. -/
+def defineRaw? (T : Trig K) : Params K → Option (Box K)
+  | .vectors a b c o => some ⟨⟨a, b, c⟩, o⟩
+  | .abc a b c al be ga o => if anglesOk al be ga then ofLengthsP? (abcOfDeg T a b c al be ga) o else none
+  | .lengths p o => ofLengthsP? p o
+  | .hilos p => ofHiLosP? p
+
+/-- reading an existing cell back through a parameter set: the getters of that set (+ `origin` where the set has one);
+    `none` = the LAMMPS getters refuse (AssertionError). -/
+def readAs? (T : Trig K) : Family → Box K → Option (Params K)
+  | .vectors, b => some (.vectors b.vects.r0 b.vects.r1 b.vects.r2 b.origin)
+  | .abc, b => some (.abc (lenOf T b.vects.r0) (lenOf T b.vects.r1) (lenOf T b.vects.r2)
+      (angleDeg T b.vects.r1 b.vects.r2) (angleDeg T b.vects.r0 b.vects.r2) (angleDeg T b.vects.r0 b.vects.r1) b.origin)
+  | .lengths, b => (lengths? b).map (fun p => .lengths p b.origin)
+  | .hilos, b => (hilos? b).map .hilos
+
+end degrees
+
+/-! #### arrays of points: shapes and row-wise evaluation -/
+
+/-- what a call does with an array of the given (full numpy) shape. -/
+inductive ShapeOutcome where
+  | ok (shape : List Nat)
+  | errValue
+  | errIndex
+deriving Repr, BEq, DecidableEq
+
+/-- both conversions: `x = np.asarray(x, dtype=float); if x.shape[-1] != 3: raise ValueError`; the result has the shape of the
+    input (`shape[-1]` of a 0-d array is an IndexError). -/
+def convShape (sh : List Nat) : ShapeOutcome :=
+  match sh.getLast? with
+  | none => .errIndex
+  | some d => if d = 3 then .ok sh else .errValue
+
+/-- `inside` / `outside`: no check of their own; `np.inner(pos, normal)` of `Plane.below` needs a trailing dimension 3 (ValueError
+    otherwise) and gives the leading shape; a 0-d `pos` is multiplied into the normal (shape `(3,)`). -/
+def insideShape (sh : List Nat) : ShapeOutcome :=
+  match sh.getLast? with
+  | none => .ok [3]
+  | some d => if d = 3 then .ok sh.dropLast else .errValue
+
+/-- number of points in an array of that shape. -/
+def rowsOf (sh : List Nat) : Nat := sh.dropLast.foldl (· * ·) 1
+
+section arrays
+variable [Add K] [Sub K] [Mul K] [Div K] [Neg K] [LT K] [LE K] [DecidableLT K] [DecidableLE K]
+def r2cAll (b : Box K) (pts : List (V3 K)) : List (V3 K) := pts.map b.relToCart
+def c2rAll (b : Box K) (pts : List (V3 K)) : List (V3 K) := pts.map b.cartToRel
+def insideAll (b : Box K) (lam : Lams K) (pts : List (V3 K)) (incl : Bool) : List Bool :=
+  pts.map (fun p => inside b lam p incl)
+def outsideAll (b : Box K) (lam : Lams K) (pts : List (V3 K)) (incl : Bool) : List Bool :=
+  pts.map (fun p => outside b lam p incl)
+end arrays
+
 end Atomman.C01
